@@ -5,6 +5,9 @@ use crate::harness::{Outcome, SharedCtx};
 pub mod session;
 pub mod c03;
 pub mod c04;
+pub mod c10;
+pub mod c11;
+pub mod c12;
 pub mod c13;
 pub mod c14;
 
@@ -50,6 +53,9 @@ pub fn registry() -> Vec<ScenarioDef> {
     vec![
         ScenarioDef { property: "C03", name: "c03/session", run: c03::run, quick_cases: 4_000, thorough_cases: 600_000, needs_tls: true },
         ScenarioDef { property: "C04", name: "c04/session", run: c04::run, quick_cases: 4_000, thorough_cases: 600_000, needs_tls: true },
+        ScenarioDef { property: "C10", name: "c10/fastpath", run: c10::run, quick_cases: 3_000, thorough_cases: 400_000, needs_tls: true },
+        ScenarioDef { property: "C11", name: "c11/input", run: c11::run, quick_cases: 3_000, thorough_cases: 400_000, needs_tls: true },
+        ScenarioDef { property: "C12", name: "c12/automaton", run: c12::run, quick_cases: 2_500, thorough_cases: 300_000, needs_tls: true },
         ScenarioDef { property: "C13", name: "c13/deframe", run: c13::run, quick_cases: 200_000, thorough_cases: 4_000_000, needs_tls: false },
         ScenarioDef { property: "C14", name: "c14/tpkt_write", run: c14::run_tpkt, quick_cases: 60_000, thorough_cases: 2_000_000, needs_tls: false },
         ScenarioDef { property: "C14", name: "c14/link_write", run: c14::run_link, quick_cases: 40_000, thorough_cases: 1_000_000, needs_tls: false },
